@@ -135,11 +135,12 @@ def decide(prop, progs, tag, verd, stats, counts, samples, classify=None, max_st
 
 def number(fams):
     """fams: list of (family, Prog, root, src or None) -> program records"""
-    from luagen import render
+    from luagen import render, finalize
     progs = []
     for i, (fam, p, root, src) in enumerate(fams):
         if src is None:
             src = render(p, root)
+        finalize(p, root)
         progs.append({"id": i + 1, "fam": fam, "root": root, "nodes": p.nodes[1:], "src": src})
     return progs
 
